@@ -353,7 +353,14 @@ class World:
             return rng.choice(list(R.BASES))
         return rng.choice(bases)
 
-    def size_request(self, src_contents, base, room_L, n=1, mode=None):
+    def whole_volume_request(self, src_obj):
+        """The whole content by volume, as the library itself reports it (exact-boundary request)."""
+        cf = R.cfg()
+        with M.oracle():
+            v = src_obj.get_volume(cf.vol_unit)
+        return f'{v!r} {cf.vol_unit}'
+
+    def size_request(self, src_contents, base, room_L, n=1, mode=None, src_obj=None):
         """-> (quantity string, mode).  room_L: free volume of the tightest destination in litres.
         The request is sized from the state: a fraction of what the source holds / of the free room."""
         rng = self.rng
@@ -377,6 +384,8 @@ class World:
         if mode == 'whole':
             if n != 1 or lim_room < lim_src:
                 return spell(rng, lim * 0.5, base), 'feasible'
+            if base == 'L' and src_obj is not None:
+                return self.whole_volume_request(src_obj), 'whole_reported'
             return spell(rng, m, base, exact=True), mode
         if mode == 'zero':
             return spell(rng, 0.0, base), mode
@@ -412,11 +421,11 @@ class World:
         dst = dst or rng.choice([n for n in cn if n != src])
         s, d = self.objs[src], self.objs[dst]
         base = base or self.pick_unit(s.contents)
-        q, mode = self.size_request(s.contents, base, self.room_L(d), 1, mode)
+        q, mode = self.size_request(s.contents, base, self.room_L(d), 1, mode, src_obj=s)
         step = {'op': 'transfer', 'src': [src, None], 'dst': [dst, None], 'q': q, 'mode': mode}
         res, exc = self.do('Container.transfer', step, lambda: pp.Container.transfer(s, d, q),
-                           expect={'op': 'Container.transfer', 'must': 'accept', 'tag': 'whole_content'}
-                           if mode == 'whole' else None)
+                           expect={'op': 'Container.transfer', 'must': 'accept', 'tag': 'whole_content_as_reported'}
+                           if mode == 'whole_reported' else None)
         if res is not None:
             self.objs[src], self.objs[dst] = res
             self.keep(*res)
